@@ -532,3 +532,6 @@ REPLAY["C18"] = replay_C18
 from props_c10 import check_C10, replay_C10  # noqa: E402
 REGISTRY["C10"] = check_C10
 REPLAY["C10"] = replay_C10
+from props_c09 import check_C09, replay_C09  # noqa: E402
+REGISTRY["C09"] = check_C09
+REPLAY["C09"] = replay_C09
